@@ -128,9 +128,9 @@ class Program:
             o.meta.update(thread=c, depth=depth, q=o.a)
             if o.ctx >= 1000 and (o.ctx - 1000) in P.ops:
                 par = P.ops[o.ctx - 1000]
-                o.meta.update(in_item=True, onq=par.a)
+                o.meta.update(in_item=True, onq=par.a, item_kind=par.kind)
             else:
-                o.meta.update(in_item=False, onq=-1)
+                o.meta.update(in_item=False, onq=-1, item_kind=None)
         return P
 
     # ---- static structure helpers for oracles
